@@ -9,7 +9,7 @@ REPO = os.environ.get("VERIF_REPO", "/repo")
 SPEC = os.path.join(ROOT, "spec")
 BUILD = os.path.join(ROOT, "build")
 HARNESS_SRC = os.path.join(ROOT, "harness")
-EVID = os.path.join(ROOT, "evidence")
+EVID = os.environ.get("VERIF_EVIDENCE_DIR") or os.path.join(ROOT, "evidence")
 KNOWN = os.path.join(ROOT, "known_findings.json")
 
 GOENV = dict(GOFLAGS="-mod=mod", GOPROXY="off", GOSUMDB="off", GOTOOLCHAIN="local")
@@ -111,7 +111,66 @@ def mc_exhaustive(specdir, module, cfg, scr, workers=16, timeout=900, args=()):
         # an error on the ideal specification is a model error until reproduced on the code (DESIGN 6)
         raise Inconclusive("TLC reported an error on the specification %s/%s (model error, not a verdict):\n%s" % (module, cfg, tail))
     log("[mc] %s/%s: %d generated, %d distinct states, %.1fs" % (module, cfg, counts[0], counts[1], dt))
-    return dict(module=module, cfg=cfg, generated=counts[0], distinct=counts[1], wall_s=round(dt, 1))
+    mc_exhaustive.goals = parse_goals(out)
+    return dict(module=module, cfg=cfg, generated=counts[0], distinct=counts[1], wall_s=round(dt, 1),
+                goal_labels_reached=sorted(mc_exhaustive.goals))
+
+
+def parse_goals(out):
+    """Coverage-goal behaviours printed by the GoalEmit action property of a bounded model (spec/Goals.tla):
+    label -> list of behaviours (shortest first)."""
+    goals = {}
+    for m in re.finditer(r'<<"GOAL", "([^"]*)", "(.*)">>', out):
+        goals.setdefault(m.group(1), []).append(json.loads(unquote_tla_string(m.group(2))))
+    for l in goals:
+        goals[l].sort(key=len)
+    return goals
+
+
+EMPTY_BLOCK = [{"a": "BeginBlock", "dt": 1000}, {"a": "EndBlock"}, {"a": "Commit"}]
+STREAM_PAIRS = [("A2", "A1"), ("A3", "A1"), ("A3", "A2")]
+
+
+def goal_tail(module, beh):
+    """Close the block a goal behaviour ends in and append a module-specific tail, so that the consequences of the
+    situation (completion in the next block, the next release of a stream, ...) are executed and judged too."""
+    tail = []
+    if beh[-1]["a"] in ("BeginBlock", "DeliverTx"):
+        tail += [{"a": "EndBlock"}, {"a": "Commit"}]
+    if module.startswith("MC_Str"):
+        claims = [{"a": "DeliverTx", "msgs": [{"t": "SClaim", "sender": s, "receiver": r}]} for r, s in STREAM_PAIRS]
+        cancels = [{"a": "DeliverTx", "msgs": [{"t": "SCancel", "sender": s, "receiver": r}]} for r, s in STREAM_PAIRS]
+        tail += [{"a": "BeginBlock", "dt": 3000}] + claims + [{"a": "EndBlock"}, {"a": "Commit"}]
+        tail += [{"a": "BeginBlock", "dt": 17500}] + claims + [{"a": "EndBlock"}, {"a": "Commit"}]
+        tail += [{"a": "BeginBlock", "dt": 2000}] + cancels + [{"a": "EndBlock"}, {"a": "Commit"}]
+    elif module.startswith("MC_Reg"):
+        recs = [{"a": "DeliverTx", "fee": {"nund": 1}, "msgs": [{"t": "BRec", "owner": "A1", "id": 1, "hash": "y", "subt": 9}]}]
+        tail += [{"a": "BeginBlock", "dt": 1000}] + recs + [{"a": "EndBlock"}, {"a": "Commit"}] + EMPTY_BLOCK
+    else:
+        tail += EMPTY_BLOCK * 3
+    return beh + tail
+
+
+def goal_schedules(goals, module, per_label):
+    """Up to per_label shortest behaviours per label, deduplicated, each with its tail."""
+    out, seen, used = [], set(), {}
+    for label in sorted(goals):
+        n = 0
+        for beh in goals[label]:
+            key = json.dumps(beh, sort_keys=True)
+            if key in seen:
+                n += 1          # already scheduled for another label: counts for this one too
+                used[label] = used.get(label, 0) + 1
+                if n >= per_label:
+                    break
+                continue
+            seen.add(key)
+            out.append(goal_tail(module, beh))
+            used[label] = used.get(label, 0) + 1
+            n += 1
+            if n >= per_label:
+                break
+    return out, used
 
 
 def unquote_tla_string(s):
@@ -228,7 +287,7 @@ def write_evidence(pid, tier, level, coverage, wall, violations, assumptions):
 
 def save_replay(pid, rec_path, line, extra):
     """Keep the offending recording prefix (up to and including the violating line's behaviour)."""
-    d = os.path.join(ROOT, "replays")
+    d = os.environ.get("VERIF_REPLAY_DIR") or os.path.join(ROOT, "replays")
     os.makedirs(d, exist_ok=True)
     out = os.path.join(d, "%s-seed%d.ndjson" % (pid, seed()))
     lines = open(rec_path).read().splitlines()
@@ -242,6 +301,14 @@ def save_replay(pid, rec_path, line, extra):
         for l in lines[start:line]:
             f.write(l + "\n")
     json.dump(extra, open(out + ".why.json", "w"), indent=1)
+    return out
+
+
+def save_arith_replay(pid, scenario):
+    d = os.environ.get("VERIF_REPLAY_DIR") or os.path.join(ROOT, "replays")
+    os.makedirs(d, exist_ok=True)
+    out = os.path.join(d, "%s-seed%d.arith.json" % (pid, seed()))
+    json.dump([scenario], open(out, "w"), indent=1)
     return out
 
 
